@@ -122,8 +122,8 @@ pub proof fn lemma_roots_sum_nonneg(s: Seq<Node>)
 
 impl MerkleTreeChangeset {
     pub open spec fn cs_wf(&self) -> bool {
-        &&& self.length <= 0x200_0000_0000 && self.byte_length <= 0x2000_0000_0000_0000
-        &&& self.roots@.len() <= 0x1000 && self.nodes@.len() <= 0x40_0000
+        &&& self.length <= 0x4000_0000_0000_0000 && self.byte_length <= 0x4000_0000_0000_0000
+        &&& self.roots@.len() <= 0x40_0000 && self.nodes@.len() <= 0x100_0000
         &&& roots_sum(self.roots@) == self.byte_length
         &&& forall|i: int| 0 <= i < self.roots@.len() ==> (#[trigger] self.roots@[i]).index < 0x200_0000_0000
     }
@@ -131,16 +131,17 @@ impl MerkleTreeChangeset {
     /*@ fn src/tree/merkle_tree_changeset.rs MerkleTreeChangeset::append_root
     tags: C04 C05 C09 C03
     requires:
-        old(self).cs_wf(), old(iter).wf(), node.index == old(iter).index, node.index < 0x200_0000_0000 && node.length < 0x100_0000_0000,
-        old(self).nodes@.len() <= 0x3f_0000, old(self).roots@.len() < 0x1000,
-        old(self).length + old(iter).factor / 2 <= 0x200_0000_0000,
-        old(self).byte_length + node.length <= 0x2000_0000_0000_0000
+        old(self).cs_wf(), old(iter).wf(), node.index == old(iter).index, node.index < 0x200_0000_0000,
+        old(self).nodes@.len() + old(self).roots@.len() <= 0xff_fff0, old(self).roots@.len() < 0x40_0000,
+        old(self).length + old(iter).factor / 2 <= 0x4000_0000_0000_0000,
+        old(self).byte_length + node.length <= 0x4000_0000_0000_0000
     ensures:
         final(self).cs_wf(), final(self).upgraded,
         final(self).length == old(self).length + old(iter).factor / 2,
         final(self).byte_length == old(self).byte_length + node.length,
         final(self).roots@.len() >= 1 && final(self).roots@.len() <= old(self).roots@.len() + 1,
         final(self).nodes@.len() <= old(self).nodes@.len() + 1 + old(self).roots@.len(),
+        final(self).nodes@.len() + final(self).roots@.len() <= old(self).nodes@.len() + old(self).roots@.len() + 2,
         // the iterator is left on the last root
         final(iter).wf() && final(iter).index == final(self).roots@.last().index,
         final(self).fork == old(self).fork, final(self).ancestors == old(self).ancestors, final(self).batch_length == old(self).batch_length,
@@ -155,7 +156,7 @@ impl MerkleTreeChangeset {
         invariant
             iter.wf(), self.roots@.len() >= 1, iter.index == self.roots@.last().index,
             self.roots@.len() <= old(self).roots@.len() + 1,
-            roots_sum(self.roots@) == self.byte_length, self.byte_length <= 0x2000_0000_0000_0000, self.length <= 0x200_0000_0000,
+            roots_sum(self.roots@) == self.byte_length, self.byte_length <= 0x4000_0000_0000_0000, self.length <= 0x4000_0000_0000_0000,
             forall|i: int| 0 <= i < self.roots@.len() ==> (#[trigger] self.roots@[i]).index < 0x200_0000_0000,
             self.nodes@.len() + self.roots@.len() <= old(self).nodes@.len() + old(self).roots@.len() + 2,
             self.upgraded, self.length == old(self).length + old(iter).factor / 2, self.byte_length == old(self).byte_length + node.length,
@@ -236,7 +237,7 @@ impl MerkleTreeChangeset {
     requires:
         old(self).cs_wf(), old(self).length < 0xff_ffff_ffff, data@.len() < 0x100_0000_0000,
         old(self).byte_length + data@.len() <= 0x2000_0000_0000_0000, old(self).batch_length < u64::MAX,
-        old(self).nodes@.len() <= 0x3f_0000, old(self).roots@.len() < 0x1000
+        old(self).nodes@.len() + old(self).roots@.len() <= 0xff_fff0, old(self).roots@.len() < 0x1000
     ensures:
         r == data@.len(), final(self).cs_wf(),
         // one more block, its bytes added to the byte length (empty blocks included)
